@@ -37,23 +37,33 @@ type scanRes struct {
 }
 
 func mkDest(name string) interface{} {
+	// destinations hold something already (a variable reused from the previous row): "the zero value" for NULL and
+	// missing columns means the old content must be gone afterwards
 	switch name {
 	case "string":
-		return new(string)
+		v := "SENTINEL"
+		return &v
 	case "bytes":
-		return new([]byte)
+		v := []byte{0xEE, 0xEE}
+		return &v
 	case "int64":
-		return new(int64)
+		v := int64(77)
+		return &v
 	case "int32":
-		return new(int32)
+		v := int32(77)
+		return &v
 	case "int":
-		return new(int)
+		v := 77
+		return &v
 	case "bool":
-		return new(bool)
+		v := true
+		return &v
 	case "float64":
-		return new(float64)
+		v := 7.5
+		return &v
 	case "time":
-		return new(time.Time)
+		v := time.Date(2001, 2, 3, 4, 5, 6, 0, time.UTC)
+		return &v
 	case "nil":
 		return nil
 	case "uint16":
